@@ -207,17 +207,23 @@ def observe(cfg, deep=True, translate_to=None, searches=None):
     o['senses'] = [obs_sense(x, deep) for x in senses]
     o['synsets'] = [obs_synset(x, deep) for x in synsets]
     # equality and hashing of objects reached by different routes (C10)
-    eq = {'same_bad': [], 'diff_bad': []}
+    eq = {'same_bad': [], 'diff_bad': [], 'lex_bad': []}
     byw = {x._id: x for x in words}
     bys = {x._id: x for x in senses}
     byy = {x._id: x for x in synsets}
+
+    def same_lexicon(a_, b_, route):
+        # the same stored entity reached by navigation and obtained from the Wordnet belongs to one lexicon
+        if a_._lexid != b_._lexid:
+            eq['lex_bad'].append([route, ref(a_), a_._lexid, b_._lexid])
     for s_ in senses:
-        for getter, table in ((s_.word, byw), (s_.synset, byy)):
+        for getter, table, route in ((s_.word, byw, 'Sense.word()'), (s_.synset, byy, 'Sense.synset()')):
             r_ = call(getter)
             if r_[0] == 'ok' and r_[1]._id in table:
                 a_, b_ = r_[1], table[r_[1]._id]
                 if not (a_ == b_ and hash(a_) == hash(b_) and a_ in {b_} and not (a_ != b_)):
                     eq['same_bad'].append([ref(a_), ref(b_)])
+                same_lexicon(a_, b_, route)
     for x in words:
         r_ = call(x.senses)
         if r_[0] == 'ok':
@@ -225,6 +231,21 @@ def observe(cfg, deep=True, translate_to=None, searches=None):
                 b_ = bys.get(a_._id)
                 if b_ is not None and not (a_ == b_ and hash(a_) == hash(b_) and a_ in {b_}):
                     eq['same_bad'].append([ref(a_), ref(b_)])
+                if b_ is not None:
+                    same_lexicon(a_, b_, 'Word.senses()')
+    for y in synsets:
+        r_ = call(y.senses)
+        if r_[0] == 'ok':
+            for a_ in r_[1]:
+                b_ = bys.get(a_._id)
+                if b_ is not None:
+                    same_lexicon(a_, b_, 'Synset.senses()')
+        r_ = call(y.words)
+        if r_[0] == 'ok':
+            for a_ in r_[1]:
+                b_ = byw.get(a_._id)
+                if b_ is not None:
+                    same_lexicon(a_, b_, 'Synset.words()')
     allobj = list(words) + list(senses) + list(synsets)
     for i_ in range(len(allobj)):
         for j_ in range(i_ + 1, min(len(allobj), i_ + 6)):
